@@ -38,6 +38,14 @@ func ints(names ...string) []ColDef {
 var my = runCfg{dialect: "mysql"}
 
 var pairWitnesses = []witness{
+	// seeded change C01-d: the set of dropped columns must be per table — an earlier table drops column `code`, a later
+	// table keeps its own `code` and drops the index / foreign key on it
+	{"w-cross-table-dropped-column-index", my,
+		[]Stmt{tbl("a", ints("id", "code")...), tbl("b", ints("id", "code")...), idx("b", "idx_b_code", false, "code")},
+		[]Stmt{tbl("a", ints("id")...), tbl("b", ints("id", "code")...)}},
+	{"w-cross-table-dropped-column-fk", my,
+		[]Stmt{tbl("u", col("id", "int(11)", oNotNull, oPk)), tbl("a", ints("id", "uid")...), tbl("b", ints("id", "uid")...), fk("b", "fk_u_b", "uid", "u", "id")},
+		[]Stmt{tbl("u", col("id", "int(11)", oNotNull, oPk)), tbl("a", ints("id")...), tbl("b", ints("id", "uid")...)}},
 	// F2: restored column position computed from the old index instead of the merged position
 	{"w-F2-down-position", my, []Stmt{tbl("t", ints("a", "b", "c", "d")...)}, []Stmt{tbl("t", ints("z", "a", "b", "e", "d", "f")...)}},
 	// F3: option kinds changed, count unchanged
